@@ -319,6 +319,10 @@ class Stack:
         if k == "wf":
             sb.set_workflow_data(self.wfid(op[1]), op[2], op[3])
             return "ok"
+        if k == "x.wf":
+            # workflow data of any JSON-like value - None and the falsy ones included (direct comparison of the two backends)
+            sb.set_workflow_data(self.wfid(op[1]), "x" + op[2], op[3])
+            return "ok"
         if k == "rctx":
             from pynenc.runner.runner_context import RunnerContext
 
@@ -500,6 +504,9 @@ class Stack:
             return show_set(c.runner_id for c in sb.get_runner_contexts(list(q[1])))
         if k == "rmatch":
             return show_set(c.runner_id for c in sb.get_matching_runner_contexts(q[1]))
+        if k == "x.wf":
+            # read with a default that no stored value equals: "stored None" and "nothing stored" are different answers
+            return repr(sb.get_workflow_data(self.wfid(q[1]), "x" + q[2], "<nothing stored>"))
         if k in ("x.hrange", "x.irange"):
             # the time-range scans (what the monitor's timeline reads) over the window that ends at the instant of the last late entry
             t = getattr(self, "hold_ts", None)
@@ -736,6 +743,7 @@ def readout_queries(labels: list[str], known: list[str], ext: str, ghosts: list[
     qs += [("rctxs", tuple(RUNNERS + [ext]))]
     qs += [("rmatch", p) for p in ("rA", "r")]
     qs += [("x.hrange",), ("x.irange",)]
+    qs += [("x.wf", "w1", "k1"), ("x.wf", "w1", "k2")]
     qs += [("t.cond", c) for c in ("c1", "c3")] + [("t.trgs", c) for c in ("c1", "c2")] + [("t.trg", "t1"), ("t.trg", "t3"), ("t.valid",), ("t.cron", "c1"), ("t.cron", "c3")]
     qs += [("cds.get", "pL"), ("cds.get", "ps")]
     return qs
@@ -1259,8 +1267,10 @@ class Gen:
         if x < 0.76:
             i = some()
             return ["hist", i, r.choice(ALL_STATUSES), r.choice([None, "rA"]), r.choice(["rA", "rB"])] if i else None
-        if x < 0.79:
+        if x < 0.78:
             return ["wf", r.choice(["w1", "w2"]), r.choice(["k1", "k2"]), r.choice(["u", "v"])]
+        if x < 0.79:
+            return ["x.wf", "w1", r.choice(["k1", "k2"]), r.choice([None, 0, "", False, [], "v", {"a": None}])]
         if x < 0.81:
             return ["rctx", r.choice(["rA", "rB", "rZ"]), r.choice([None, "rP"])]
         if x < 0.90:
